@@ -38,6 +38,19 @@ func main() {
 		mk("conf-removed-vs-clients", "publisher+reader attached on a regexp path; the configuration is removed while a publisher, a reader and an API get arrive",
 			pmlib.ConcSpec{Base: re, Reload: none, Name: "px", PrePublish: true, Publisher: true, Reader: true, APIGet: true}, 1, 2),
 	}
+	od := pmlib.LoadConf("paths:\n  p:\n    runOnDemand: vcmd demand\n    runOnDemandStartTimeout: 10s\n    runOnDemandCloseAfter: 10s\n")
+	odCold := pmlib.LoadConf("paths:\n  p:\n    maxReaders: 9\n    runOnDemand: vcmd demand\n    runOnDemandStartTimeout: 10s\n    runOnDemandCloseAfter: 10s\n")
+	scn = append(scn,
+		mk("ondemand-held-vs-recreate", "runOnDemand path: a reader and a describe request are put on hold; concurrently a reload recreates the path, a publisher arrives, the API reads the path; then shutdown",
+			pmlib.ConcSpec{Base: od, Reload: odCold, Name: "p", Reader: true, Describe: true, Publisher: true, APIGet: true}, 1, 2),
+		mk("ondemand-held-vs-removed", "same, the configuration of the path is removed",
+			pmlib.ConcSpec{Base: od, Reload: none, Name: "p", Reader: true, Describe: true, APIList: true}, 2, 3),
+		mk("ondemand-held-vs-shutdown", "runOnDemand path: shutdown races with requests being put on hold",
+			pmlib.ConcSpec{Base: od, Name: "p", Reader: true, Describe: true, CloseAtOnce: true}, 2, 3),
+	)
+	for _, s := range scn[len(scn)-3:] {
+		s.NoRacePass = true // start timeouts are real time there
+	}
 	extra := func(r *vcommon.Run) (int64, int64, int64, string) {
 		reps := 40
 		if r.Thorough() {
